@@ -69,6 +69,7 @@ def worker(c):
         return (d.s("pstack"), d.s("pbase"))
 
     nv = m.n("nv")
+    dcopy = None
     for k in range(c["ncalls"]):
         call = CALLS[int(rng.integers(0, len(CALLS)))]
         if rng.random() < 0.3:
@@ -78,6 +79,9 @@ def worker(c):
         ev0 = sum(st[i] for i in range(5))
         nviol0 = int(st[5])
         warn0 = d.sv("warning")["number"].copy()
+        if dcopy is not None:
+            dcopy.free()
+        dcopy = None
         try:
             if call == "mj_step":
                 d.step(int(rng.integers(1, 4)))
@@ -93,6 +97,7 @@ def worker(c):
                 L.call("mj_step2", m, d, ret=None)
             elif call == "mjd_transitionFD":
                 if nv and nv < 80:
+                    dcopy = d.copy()
                     n = 2 * nv + m.n("na")
                     A = np.zeros((n, n))
                     B = np.zeros((n, m.n("nu")))
@@ -126,14 +131,34 @@ def worker(c):
         after = pointers()
         lib.vf_mem_stats(d.ptr, st)
         ev1 = sum(st[i] for i in range(5))
-        if int(st[5]) > nviol0 and call == "mjd_transitionFD":
+        if (int(st[5]) > nviol0 or after != before) and call == "mjd_transitionFD" and dcopy is not None:
             # mechanism test: a perturbed step inside mjd_transitionFD tripped a bad-value check and mj_resetData ran (autoreset),
             # which zeroes pstack/pbase UNDER the still open frame of mjd_stepFD: later stack blocks overlap its live arrays
             w = d.sv("warning")["number"] - warn0
             bad = int(w[E.mjWARN_BADQPOS]) + int(w[E.mjWARN_BADQVEL]) + int(w[E.mjWARN_BADQACC])
             msgs = [lib.vf_mem_violation(i).decode() for i in range(nviol0, min(8, int(st[5])))]
             autoreset_on = not (int(m.opt["disableflags"]) & int(E.mjDSBL_AUTORESET))
-            if bad > 0 and autoreset_on and nviol0 == 0:
+            # counterfactual: the same call from the same state with autoreset disabled is clean (no shadow violation, stack pointer
+            # restored) - then the reset inside the finite-difference loop is what released the frame
+            clean_without_autoreset = False
+            if autoreset_on and nviol0 == 0:
+                lib.vf_mem_clear_violations()
+                lib.vf_mem_track(dcopy.ptr)
+                m.opt["disableflags"] = int(m.opt["disableflags"]) | int(E.mjDSBL_AUTORESET)
+                try:
+                    b2 = (dcopy.s("pstack"), dcopy.s("pbase"))
+                    n2 = 2 * nv + m.n("na")
+                    L.call("mjd_transitionFD", m, dcopy, 1e-6, 1, np.zeros((n2, n2)), np.zeros((n2, m.n("nu"))), None, None, ret=None)
+                    lib.vf_mem_stats(dcopy.ptr, st)
+                    clean_without_autoreset = int(st[5]) == 0 and (dcopy.s("pstack"), dcopy.s("pbase")) == b2
+                except drv.MjError:
+                    clean_without_autoreset = False
+                finally:
+                    m.opt["disableflags"] = int(m.opt["disableflags"]) & ~int(E.mjDSBL_AUTORESET)
+                    lib.vf_mem_forget(dcopy.ptr)
+                    lib.vf_mem_clear_violations()
+                P.count("transitionFD_autoreset_counterfactual_" + ("clean" if clean_without_autoreset else "not_clean"))
+            if (bad > 0 or clean_without_autoreset) and clean_without_autoreset and autoreset_on and nviol0 == 0:
                 P.violation("autoreset-inside-mjd_transitionFD-resets-the-stack-under-the-open-frame",
                             {"model": name, "messages": msgs[:4], "case": c, "options": opts, "warnings_raised": w.tolist(), "pointers": [before, after]})
                 lib.vf_mem_clear_violations()
